@@ -165,7 +165,7 @@ TRIM_DEFAULT_ROW = {'gfx': b'0' * 128 + b'\n', 'gff': b'00' * 128 + b'\n', 'map'
                     'sfx': b'00100000' + b'00000' * 32 + b'\n'}
 
 
-def write_p8(regions, code, version=33, label=None, final_newline=True, order=None, omit=(), trim=()):
+def write_p8(regions, code, version=33, label=None, final_newline=True, order=None, omit=(), trim=(), meta=None, meta_after=None):
     """Reference .p8 writer.  regions: dict name -> bytes; code: P8SCII bytes.
     order: section order (default lua gfx label gff map sfx music); omit: sections left out entirely; trim: sections written the way
     current PICO-8 writes them, without their trailing rows that hold only default contents (all-zero gfx/gff/map rows, silent music
@@ -190,6 +190,10 @@ def write_p8(regions, code, version=33, label=None, final_newline=True, order=No
         # (the first sfx pattern is never dropped: what an absent pattern 0 means is not something the format description settles)
         while len(rows) > (2 if name == 'sfx' else 1) and rows[-1] == TRIM_DEFAULT_ROW[name]:
             rows.pop()
+    # meta: (name, text lines) of a `__meta:name__` section as current PICO-8 writes it for the title shown in splore (after the music
+    # section; meta_after places it after another section).  It is not cart memory: a reader has nothing to take from it.
+    def meta_block():
+        return [b'__meta:' + meta[0] + b'__\n'] + [l + b'\n' for l in meta[1]]
     prev = None
     for name in (order or ('lua', 'gfx', 'label', 'gff', 'map', 'sfx', 'music')):
         if name in parts and name not in omit:
@@ -200,6 +204,12 @@ def write_p8(regions, code, version=33, label=None, final_newline=True, order=No
             else:
                 out.extend(parts[name])
             prev = name
+            if meta is not None and meta_after == name:
+                out.extend(meta_block())
+                prev = 'meta'
+    if meta is not None and meta_after is None:
+        out.extend(meta_block())
+        prev = 'meta'
     if prev != 'lua':
         out.append(b'\n')      # (PICO-8 ends the file with an empty line; after the Lua section it would be a line of the code)
     return b''.join(out)
@@ -216,7 +226,13 @@ def write_p8_variant(rng, regions, code, version=33, label='random'):
     if label == 'random':
         r = rng.random()
         label = None if r < 0.5 else bytes(8192) if r < 0.65 else bytes(rng.getrandbits(8) for _ in range(128)) * 64
-    return write_p8(regions, code, version=version, label=label, order=order, trim=trim)
+    meta = None
+    meta_after = None
+    if rng.random() < 0.3:
+        meta = (b'title', [rng.choice((b'my game', b'jelpi demo', b'untitled', b'a b c', b'00 41424344', b'x=1')), b'by someone'][:rng.randint(1, 2)])
+        if rng.random() < 0.3:
+            meta_after = rng.choice(('gfx', 'gff', 'map', 'sfx', 'lua'))
+    return write_p8(regions, code, version=version, label=label, order=order, trim=trim, meta=meta, meta_after=meta_after)
 
 
 class FormatError(Exception):
@@ -240,7 +256,7 @@ def read_p8(data):
     sections = {}
     cur = None
     for ln in body:
-        if len(ln) >= 5 and ln.startswith(b'__') and ln.endswith(b'__') and ln[2:-2].isalnum():
+        if len(ln) >= 5 and ln.startswith(b'__') and ln.endswith(b'__') and ln[2:-2].replace(b'meta:', b'', 1).replace(b':', b'').isalnum():
             cur = ln[2:-2].decode()
             sections[cur] = []
         elif cur is not None:
